@@ -19,6 +19,14 @@ func init() {
 		ruleMetaTypes(r, "C04.TYPES", k)
 		ruleMetaKey(r, "C04.KEY", k)
 		ruleFilterBuilders(r, "C04.BUILD")
+		ruleMetaBSIWidth(r, "C04.BSI")
+		nb := 0
+		for _, T := range builderTypes(r.W, "MetadataSearch") {
+			nb += ruleBuilders(r, "C04.BLD", T)
+		}
+		if nb < 2 {
+			r.add("C04.BLD", "floor", "-", "fewer than 2 builder methods on the metadata search type", Floor)
+		}
 		r.FloorCheck("C04.OPS", 15)
 		r.FloorCheck("C04.LOGIC", 4)
 	})
